@@ -818,10 +818,12 @@ def run(rep):
         job("stop exhaustive", "stop", tlc_kw=dict(coverage=True, workers=8), Samples=tuples((-2, 0, 1, 3)), MaxLen=8,
             Params=param_set(ps_t, ts_t, [0, 1, 2, 3], [1, 2, 3, 4, 5, 6, 7]))
     else:
-        job("stats K=1 exhaustive", "stats", tlc_kw=dict(coverage=True, workers=8), MaxLen=6, MaxChunk=2, PermKinds={"rev"})
-        job("stats K=1 chunks<=3, 4 permutations", "stats", tlc_kw=dict(workers=4), MaxLen=5, MaxChunk=3,
-            PermKinds={"rev", "rot", "swap", "oddeven"})
-        job("stats K=2 exhaustive", "stats", tlc_kw=dict(workers=4), K=2, Samples=S2q, MaxLen=3, MaxChunk=2, PermKinds={"rev", "rot"})
+        job("stats K=1 len<=6 over -2..2", "stats", tlc_kw=dict(workers=4), Samples=tuples(range(-2, 3)), MaxLen=6, MaxChunk=2,
+            PermKinds={"rev"})
+        job("stats K=1 len<=5 over -3..3, chunks<=3", "stats", tlc_kw=dict(coverage=True, workers=8), MaxLen=5,
+            MaxChunk=3, PermKinds={"rot", "oddeven"})
+        job("stats K=2 exhaustive", "stats", tlc_kw=dict(workers=4), K=2, Samples=tuples((-2, 0, 1, 3), 2), MaxLen=3, MaxChunk=2,
+            PermKinds={"rev", "rot"})
         job("stats K=3 exhaustive", "stats", tlc_kw=dict(workers=2), K=3, Samples=S3, MaxLen=4, MaxChunk=2, PermKinds={"rev", "swap"})
         job("stats all permutations", "stats", tlc_kw=dict(workers=4), Samples=tuples(range(-2, 3)), MaxLen=4, PermKinds={"all"})
         job("stop exhaustive", "stop", tlc_kw=dict(coverage=True, workers=8), Samples=tuples((-2, 1, 3)), MaxLen=7,
@@ -833,7 +835,7 @@ def run(rep):
     job("self-test nocheck", "stop", tlc_kw=dict(workers=1), expect="StopSound|ReasonTrue", Samples=tuples((-2, 1, 3)), MaxLen=8,
         Variant="nocheck", Params=param_set([(1, 10)], [(0, 1)], [1], [6]))
     # emission (exhaustive, small) ...
-    E1 = tuples((-3, -1, 0, 2, 3))
+    E1 = tuples((-3, -1, 0, 2))
     E2 = {(-3, 3), (0, 0), (1, 2), (3, -3), (2, 2), (-1, 0)}
     job("emit stats K=1", "stats", emit=True, Samples=E1 if not thorough else S1, MaxLen=4, MaxChunk=3, TrackCalls=True,
         PermKinds={"rev"} if not thorough else {"rev", "oddeven"})
@@ -864,15 +866,19 @@ def run(rep):
     # the stop machine beyond 1024 draws: samples +-1 keep (n+1)*u < 2^31 up to n = 1289; rtol = 0 never converges
     job("simulate stop long", "stop", emit=True,
         tlc_kw=dict(simulate=dict(num=2 if not thorough else 8), depth=4 * 1280 + 8, seed=seed),
-        Samples=tuples((-1, 1)), MaxLen=1280, Params=param_set([(0, 1)], [(0, 1), (1, 1)], [5, 20], [1100, 1201, 1280]))
+        Samples=tuples((-1, 1)), MaxLen=1280,
+        Params=param_set([(0, 1)], [(0, 1), (1, 1)], [5, 20], [1050, 1101] if not thorough else [1100, 1201, 1280]))
 
     def _run(j):
         label, machine, emit, tkw, expect, kw = j
         name = "MC_RS_" + "".join(ch if ch.isalnum() else "_" for ch in label)
         return run_model(name, machine, emit=emit, tlc_kw=tkw, **kw)
 
+    import time
+    t0 = time.time()
     with concurrent.futures.ThreadPoolExecutor(max_workers=max(2, min(6, common.NCPU // 2))) as pool:
         results = list(pool.map(_run, jobs))
+    t1 = time.time()
 
     stats_cases, stop_cases = [], []
     for (label, machine, emit, tkw, expect, kw), r in zip(jobs, results):
@@ -960,7 +966,7 @@ def run(rep):
     if nbig < 100:
         raise RuntimeError("vacuous: only %d update_from_it(ndarray of >= 32 values) calls into non-empty accumulators" % nbig)
     rep.extra["ndarray_chunks_ge32_into_nonempty_accumulators"] = nbig * 4   # x 2 orders x (RunningStatistics..Matrix), at least
-    nnoisy = 20000 if thorough else 3000
+    nnoisy = 20000 if thorough else 1500
     for meta, bad, drift, worst in common.pmap(check_noisy_case, [(seed, i) for i in range(nnoisy)]):
         _merge_worst(worst_stop, worst)
         rep.add_case(["noisy", meta["seed"], meta["idx"]], sample=sample("noisy", True, meta))
@@ -998,6 +1004,7 @@ def run(rep):
     if drifts:
         rep.note("model_drift: %d run(s) of estimate_from_repeats stopped at a count other than the pinned code's while "
                  "satisfying the property, e.g. %s" % (len(drifts), drifts[0]))
+    rep.extra["phase_wall_s"] = dict(tlc=round(t1 - t0, 1), replay=round(time.time() - t1, 1))
     rep.exhaustive = True
     rnd = lambda d: {k: float("%.3g" % v) for k, v in sorted(d.items())}  # noqa
     rep.extra["model_cases"] = dict(stats=len(stats_cases), stop=len(stop_cases))
